@@ -102,6 +102,10 @@ class SimScorer:
         elif m == "close":
             # scores that differ in their last bits only
             v = 1.0 + self.rng.randrange(2000) * 2.220446049250313e-16
+        elif m == "bigint":
+            # exact integers beyond 2**53 that differ in their low-order part only (a packed
+            # lexicographic ranking): distinct as ints, equal once converted to float
+            v = 6 * 10 ** 18 - self.rng.randrange(40)
         elif m == "poison":
             # a caller's scorer that sometimes answers NaN / +-inf: whatever the search does
             # with such candidates, a non-finite score must not be streamed
@@ -566,7 +570,7 @@ def _schedulers(rng, n_random):
          {"mode": "counter_up"}, {"mode": "counter_down"}]
     for _ in range(n_random):
         s.append({"mode": rng.choice(["uniform", "uniform", "coarse", "coarse_neg", "tiny",
-                                      "close", "huge"]),
+                                      "close", "huge", "bigint"]),
                   "seed": rng.randrange(1 << 30)})
         if rng.random() < 0.12:
             s[-1]["falsy"] = True
@@ -661,7 +665,22 @@ def _texts(rng, n, prop="C15"):
                             "%s %s %s %s" % (day, pod, ck, du), "%s %s %s %s" % (day, ck, pod, du),
                             "%s %s %s" % (pod, ck, du), "%s %s %s" % (day, ck, du),
                             "%s %s %s %s" % (pod, ck, day, du)])
-        elif r < 0.86:
+        elif r < 0.853:
+            # two durations of the same length in different units (equal "size", different values)
+            nn = rng.randint(1, 4)
+            a, b = rng.choice([("%d nights" % nn, "%d days" % nn), ("%d week" % 1, "7 days"),
+                               ("2 hours", "120 minutes"), ("1 day", "24 hours"),
+                               ("half an hour", "30 m"), ("a week", "7 tage"),
+                               ("%d nächte" % nn, "%d tage" % nn), ("1 hour", "60 minutes")])
+            t = "%s %s" % ((a, b) if rng.random() < 0.5 else (b, a))
+        elif r < 0.866:
+            # a group of ambiguous tokens (dozens of candidate sequences), a word nothing matches,
+            # then an expression with longer coverage - and the other way round
+            g = " ".join(rng.choice(["1", "2", "3", "5", "8"]) for _ in range(rng.choice([3, 3, 4])))
+            e = rng.choice(["tomorrow", "12.12.2020", "friday 8pm", "übermorgen", "next monday"])
+            t = "%s %s %s" % ((g, rng.choice(["x", "foo", "und"]), e) if rng.random() < 0.7
+                              else (e, "x", g))
+        elif r < 0.88:
             # two different expressions of the same kind side by side (one pattern matching
             # twice in one sequence; a production may decline the first and accept the second)
             g = rng.choice([workload.CLOCKS, workload.DURS, workload.DATES, workload.DOMS,
